@@ -141,6 +141,17 @@ pub fn run(ctx: &mut Ctx) {
         ctx.eval("value", m.fp(), m.size() > 1);
         check(ctx, &m, &mut rng, "value");
     }
+    // wide values: more than 128 siblings at one level
+    let n = ctx.n(60, 1_000);
+    for i in 0..n {
+        if !ctx.begin("wide", i) {
+            continue;
+        }
+        let mut rng = ctx.case_rng("wide", i);
+        let m = crate::gen::gen_wide(&mut rng);
+        ctx.eval("wide", m.fp(), true);
+        check(ctx, &m, &mut rng, "wide");
+    }
     // all member orders of small objects: ref with dis (3 members), number with unit (3), coord (3), xstr (3), dateTime (3)
     if ctx.shard == 0 && ctx.begin("member-orders", 0) {
         let docs: Vec<(MVal, [&str; 3], [&str; 3])> = vec![
